@@ -639,8 +639,10 @@ func AuthResponseFormPost(res http.ResponseWriter, redirectURI string, response 
 }
 
 func setFragment(uri *url.URL, params url.Values) string {
-	uri.Fragment = params.Encode()
-	return uri.String()
+	// the encoded parameters are the fragment as it has to appear on the wire: writing them to
+	// uri.Fragment would make String() percent-encode them a second time ("a+b" -> "a%2Bb" -> "a%252Bb")
+	uri.Fragment, uri.RawFragment = "", ""
+	return uri.String() + "#" + params.Encode()
 }
 
 func mergeQueryParams(uri *url.URL, params url.Values) string {
